@@ -39,7 +39,16 @@ KT = (0, -1, 1, 0)
 
 
 def jobs(tier):
-    return [(c, tier) for c in MESH_CLASSES]
+    out = [(c, tier) for c in MESH_CLASSES]
+    if tier != 'quick':
+        # thorough tier: concrete small grids (down to one cell per axis) with symbolic data
+        from ..model import DIM as _DIM
+        for c in MESH_CLASSES:
+            if _DIM[c] == 1:
+                continue        # the 1-D means are written as loops with a data-dependent branch: analysable only as symbolic map-loops
+            for sz in F.QUICK_SMALL_SIZES[_DIM[c]]:
+                out.append((c, tier, sz))
+    return out
 
 
 def unit_system(cls):
@@ -49,9 +58,10 @@ def unit_system(cls):
 
 
 def job(args):
-    cls, tier = args
+    cls, tier = args[:2]
+    sizes = args[2] if len(args) > 2 else None
     sm = SourceModel()
-    w = World(sm, cls)
+    w = World(sm, cls, sizes=sizes)
     us = unit_system(cls)
     d = w.dim
     obs, samples, units = [], [], set()
@@ -134,7 +144,7 @@ def job(args):
     # sources / transient
     beta = w.cell_variable('beta')
     gamma = w.cell_variable('gamma')
-    P = tuple(w.t)
+    P = tuple(w.g)
     fi = sm.func('source', 'linearSourceTerm')
     units.update({'source.linearSourceTerm', 'source.constantSourceTerm', 'source.transientTerm'})
     Ms = w.call('source', 'linearSourceTerm', beta)
@@ -154,7 +164,7 @@ def job(args):
     g = w.call('calculus', 'gradientTerm', phi)
     for k in range(d):
         comp = snap(g.attrs['_' + AX[k] + 'value'])
-        idx = tuple(w.t[j] - (0 if j == k else 1) for j in range(d))
+        idx = tuple(w.g[j] - (0 if j == k else 1) for j in range(d))
         check(comp.at(idx), (-1, 0, 1, 0), f"calculus.gradientTerm[{cls}]/axis={AX[k]}", fi.loc(), 'face gradient')
     for m in ('linearMean', 'arithmeticMean', 'harmonicMean', 'upwindMean'):
         fi = sm.func('averaging', m)
@@ -162,7 +172,7 @@ def job(args):
         fv = w.call('averaging', m, phi, coefs['u']) if m == 'upwindMean' else w.call('averaging', m, phi)
         for k in range(d):
             comp = snap(fv.attrs['_' + AX[k] + 'value'])
-            idx = tuple(w.t[j] - (0 if j == k else 1) for j in range(d))
+            idx = tuple(w.g[j] - (0 if j == k else 1) for j in range(d))
             check(comp.at(idx), K, f"averaging.{m}/{d}D/axis={AX[k]}", fi.loc(), 'face value')
     # boundary rows and ghost values
     bc = w.boundary_conditions()
@@ -175,7 +185,7 @@ def job(args):
     Mb, Rb = w.call('boundary', 'boundaryConditionsTerm', bc)
     for a in range(d):
         for gpos in (ZERO, w.N[a] + 1):
-            G = tuple(gpos if k == a else w.t[k] for k in range(d))
+            G = tuple(gpos if k == a else w.g[k] for k in range(d))
             check(ghost.at(G), K, f"boundary.{gi}/axis={AX[a]}", gfi.loc(), f"ghost value at {F.cstr(G)}")
             for k, (c, v) in F.row_by_col(w, w.matrix_row(Mb, G)).items():
                 check(v, ZERO4, f"boundary.{ri}/axis={AX[a]}", rfi.loc(), f"row entry ({F.cstr(G)},{k})")
@@ -185,7 +195,7 @@ def job(args):
             'SphericalGrid1D': 3, 'SphericalGrid3D': 3}[cls]
     ci = sm.cls(cls)
     units.add(f"mesh.{cls}._getCellVolumes")
-    check(w.vol_at(tuple(w.t)), (nlen, 0, 0, 0), f"mesh.{cls}._getCellVolumes", ci.loc(), 'cell volume')
+    check(w.vol_at(tuple(w.g)), (nlen, 0, 0, 0), f"mesh.{cls}._getCellVolumes", ci.loc(), 'cell volume')
     return dict(obs=obs, units=sorted(units), samples=samples)
 
 
